@@ -221,12 +221,13 @@ def files(ck, prop, tmp, n):
         adj = g.adjacency()
         nrec = rng.choice([1, 2, 3, 5, 8, 13, 25]) if rng.random() < 0.9 else rng.randint(60, 150)
         lines = []
+        utf8 = rng.random()     # one file in five carries multi-byte UTF-8 read names (characters != bytes)
         for k in range(nrec):
             w = gen.walk(rng, g, adj, maxsteps=5)
             refs = {g.seg(nm)["SN"] for nm, o in w if g.seg(nm)["SR"] == 0}
             if len(refs) > 1:
                 continue  # two reference contigs on one path: outside the quantifier
-            lines.append(gen.walk_record(rng, g, w, "r%d" % k, canonical=False))
+            lines.append(gen.walk_record(rng, g, w, ("r%d" if utf8 < 0.8 or rng.random() < 0.7 else "M\u00fcller_\u8aad%d") % k, canonical=False))
         if not lines:
             continue
         bg_in = rng.choice([0, 0, 1, 300])
